@@ -17,7 +17,7 @@ var mixC03 = Mix{Set: 30, Delete: 8, GetItem: 2, Flush: 10, Evict: 2, Reopen: 2,
 func init() {
 	register(&Prop{
 		ID: "C03", Level: "fault_enumeration",
-		Rule: "case = one seeded history with 2-6 flushes over 1-3 collections whose names, keys and values are laden with the magic markers, doubled markers, plausible-but-inconsistent root trailers and byte-exact / truncated copies of earlier root records of the same file. From the StoreFile write log EVERY crash image is rebuilt: for every i (log entries 0..i-1 applied in issue order) and for the write in flight every byte length j in 0..len-1 (byte-granular). Each image is opened with NewStore and must show exactly the state of the last Flush all of whose writes are contained in the image (all collections together), or - if there is none - an empty store or the documented no-roots error; the open must respect the logical root-scan bound and not panic. A seed-chosen subset of images is additionally opened with junk tails appended (random bytes, zeros, doubled end marker alone, doubled end marker after a plausible but inconsistent (offset,length), a byte-exact copy of an older root record, a proper prefix of the next root record; tails that the independent decoder recognises as a complete self-consistent root record are discarded), and on a subset the recovered store performs 3 mutations, a Flush and is re-opened again. evaluations counts images opened. Non-trivial = image lies strictly inside a Flush (between its first and last byte) or carries a junk tail; distinct = distinct (history, i, j, tail).",
+		Rule: "case = one seeded history with 2-6 flushes over 1-3 collections whose names, keys and values are laden with the magic markers, doubled markers, plausible-but-inconsistent root trailers and byte-exact / truncated copies of earlier root records of the same file. From the StoreFile write log EVERY crash image is rebuilt: for every i (log entries 0..i-1 applied in issue order) and for the write in flight every byte length j in 0..len-1 (byte-granular). Each image is opened with NewStore and must show exactly the state of the last Flush all of whose writes are contained in the image (all collections together), or - if there is none - an empty store or the documented no-roots error; the open must respect the logical root-scan bound and not panic. A seed-chosen subset of images is additionally opened with junk tails appended (random bytes, zeros, doubled end marker alone, doubled end marker after a plausible but inconsistent (offset,length), a byte-exact copy of an older root record, a proper prefix of the next root record, and crafted envelopes whose framing is right for their position but whose body is not one JSON map (trailing garbage, two objects, truncated object, wrong version, first length field off by one); tails that the independent decoder recognises as a complete self-consistent root record are discarded), and on a subset the recovered store performs 3 mutations, a Flush and is re-opened again. evaluations counts images opened. Non-trivial = image lies strictly inside a Flush (between its first and last byte) or carries a junk tail; distinct = distinct (history, i, j, tail).",
 		Assumptions: []string{
 			"writes reach the file in issue order and a crash leaves a byte prefix of the write in flight (the property's own crash model); no reordering",
 			"junk that is itself a complete, self-consistent root record is excluded, as the property states",
@@ -279,6 +279,38 @@ func junkTails(r *gen.R, img []byte, oldRoots [][]byte, wl []vfile.Call, i, j in
 		if len(o) > 30 {
 			res = append(res, junk{"old-root-tail", append([]byte{}, o[r.Range(1, len(o)-25):]...)})
 		}
+	}
+	// crafted envelopes: both magics, version, both length fields and the offset field are right for
+	// the position the record lands at, but the body is not one JSON map of root locations
+	base := int64(len(img))
+	for _, c := range []struct {
+		name string
+		body string
+		ver  uint32
+		dl   int32 // error added to the first length field
+	}{
+		{"envelope-json-trailing-garbage", `{"a":{"o":0,"l":0}},"b":{"o":1`, 4, 0},
+		{"envelope-json-two-objects", `{}{"a":{"o":0,"l":0}}`, 4, 0},
+		{"envelope-json-truncated", `{"a":{"o":0,"l":`, 4, 0},
+		{"envelope-wrong-version", `{}`, 3, 0},
+		{"envelope-first-length-off", `{}`, 4, 1},
+	} {
+		n := 12 + 4 + 4 + len(c.body) + 8 + 4 + 12
+		rec := append([]byte{}, gen.MagicBeg...)
+		rec = append(rec, gen.MagicBeg...)
+		var u4 [4]byte
+		putU32(u4[:], c.ver)
+		rec = append(rec, u4[:]...)
+		putU32(u4[:], uint32(int32(n)+c.dl))
+		rec = append(rec, u4[:]...)
+		rec = append(rec, c.body...)
+		var u8 [8]byte
+		putU64(u8[:], uint64(base))
+		rec = append(rec, u8[:]...)
+		putU32(u4[:], uint32(n))
+		rec = append(rec, u4[:]...)
+		rec = append(rec, me...)
+		res = append(res, junk{c.name, rec})
 	}
 	// proper prefix of the next root record, if the history has one coming
 	for k := i; k < len(wl); k++ {
